@@ -265,20 +265,21 @@ func c08GenSteps(r *rand.Rand, b c08Base) []c08Step {
 }
 
 // instances of server-bound checks, from the live parsed rules of the loaded base configuration
-func c08Instances(dir string, b c08Base) ([]c08Inst, error) {
+func c08Instances(dir string, b c08Base) ([]c08Inst, map[string]bool, error) {
 	cfg, err := scLoadConfig(filepath.Join(dir, "load"), b.config(nil))
 	if err != nil {
-		return nil, err
+		return nil, nil, err
 	}
 	gen := config.NewPrometheusGenerator(cfg, prometheus.NewRegistry())
 	if err := gen.GenerateStatic(); err != nil {
-		return nil, err
+		return nil, nil, err
 	}
 	defer gen.Stop()
 	entries, err := scEntries(dir, "rules")
 	if err != nil || len(entries) == 0 {
-		return nil, fmt.Errorf("no entries: %v", err)
+		return nil, nil, fmt.Errorf("no entries: %v", err)
 	}
+	mixed := map[string]bool{} // reporters that also have an instance not bound to a server (promql/range_query)
 	_, prs := config.VerifParsedRules(scCtx("lint"), &cfg, gen, entries[0])
 	var out []c08Inst
 	seen := map[string]bool{}
@@ -290,12 +291,15 @@ func c08Instances(dir string, b c08Base) ([]c08Inst, error) {
 				bound = true
 			}
 		}
+		if !bound {
+			mixed[p.Name] = true
+		}
 		if bound && !seen[s] {
 			seen[s] = true
 			out = append(out, c08Inst{Name: p.Name, String: s, Tags: append([]string{}, p.Tags...)})
 		}
 	}
-	return out, nil
+	return out, mixed, nil
 }
 
 // does the --disabled value v switch instance i off?  (documented forms: name, String(), name(+tag), regexp over names)
@@ -331,6 +335,7 @@ func c08Pairs(r *rand.Rand, rep *runReport, cwd string, n int) {
 	}
 	bases := make([]c08Base, nb)
 	insts := make([][]c08Inst, nb)
+	mixed := make([]map[string]bool, nb)
 	steps := make([][]c08Step, nb)
 	var jobs []job
 	for i := range bases {
@@ -338,7 +343,7 @@ func c08Pairs(r *rand.Rand, rep *runReport, cwd string, n int) {
 		dir := filepath.Join(cwd, "pairs", fmt.Sprintf("b%03d", i))
 		writeFile(filepath.Join(dir, "rules", "0.yml"), rulesText)
 		var err error
-		insts[i], err = c08Instances(dir, bases[i])
+		insts[i], mixed[i], err = c08Instances(dir, bases[i])
 		if err != nil {
 			rep.hist("pairs:base-config-rejected")
 			rep.Notes = append(rep.Notes, "pairs: base config rejected: "+err.Error())
@@ -443,6 +448,16 @@ func c08Pairs(r *rand.Rand, rep *runReport, cwd string, n int) {
 			return
 		}
 		want := map[string]int{}
+		alt := map[string]int{} // second acceptable multiplicity of a key
+		purelyServerBound := func(name string) bool {
+			n := 0
+			for _, in := range insts[jb.base] {
+				if in.Name == name {
+					n++
+				}
+			}
+			return n > 0 && !mixed[jb.base][name]
+		}
 		touched := 0
 		skip := false
 		byKey := map[string][]scProblem{}
@@ -485,6 +500,20 @@ func c08Pairs(r *rand.Rand, rep *runReport, cwd string, n int) {
 					} else {
 						keepN = len(ps) / active * (active - hit)
 					}
+				} else if p.Reporter == nme && !overridden(p, p.Reporter) && purelyServerBound(nme) {
+					// a real finding of a check that only exists per server (rule/duplicate): every active instance reports the same
+					// problem; identical reports may or may not be folded into one by the Summary, so with instances left over both the
+					// unchanged and the proportional multiplicity are accepted, with none left the problem must disappear
+					active, hit := activeHit(nme)
+					switch {
+					case active == 0:
+						skip = true
+						rep.hist("pairs:attribution-impossible")
+					case active-hit == 0:
+						keepN = 0
+					case hit > 0 && len(ps)%active == 0:
+						alt[key] = len(ps) / active * (active - hit)
+					}
 				}
 			}
 			if keepN != len(ps) {
@@ -503,11 +532,17 @@ func c08Pairs(r *rand.Rand, rep *runReport, cwd string, n int) {
 		}
 		var missing, extra []string
 		for k, c := range want {
+			if a, ok := alt[k]; ok && got[k] == a {
+				continue
+			}
 			if got[k] < c {
 				missing = append(missing, fmt.Sprintf("%dx %s", c-got[k], k))
 			}
 		}
 		for k, c := range got {
+			if a, ok := alt[k]; ok && c == a {
+				continue
+			}
 			if c > want[k] {
 				extra = append(extra, fmt.Sprintf("%dx %s", c-want[k], k))
 			}
